@@ -22,7 +22,7 @@ REQUIRED_REACH = ["_sktime.py:_SktimeForecaster._set_y_X", "_sktime.py:_SktimeFo
                   "_statsmodels.py:_StatsModelsAdapter._predict", "_stack.py:StackingForecaster._predict",
                   "_ensemble.py:EnsembleForecaster._predict", "_pipeline.py:TransformedTargetForecaster._predict",
                   "_multiplexer.py:MultiplexForecaster._predict", "_reduce.py:_RecursiveReducer._predict_last_window"]
-REQUIRED_MONITORS = ["predict.shape", "predict.index", "predict.finite", "cutoff.fit", "cutoff.update", "rel==abs", "shift",
+REQUIRED_MONITORS = ["predict.shape", "predict.index", "predict.finite", "cutoff.fit", "cutoff.update", "rel==abs", "shift", "step-values",
                      "contract:predict.index", "contract:fit.cutoff", "contract:update.cutoff"]
 NOT_COVERED = ["gapped integer training indices (the repository treats integer labels as unit-spaced positions)",
                "real scikit-learn regressors in direct/recursive/dirrec reduction without the Squeeze1 adapter"]
@@ -101,6 +101,17 @@ def run_case(case, ctx):
                   "absolute horizon: forecast not labelled by the requested time points", got=[int(v) for v in p2.index], expected=exp_idx)
         ctx.check("rel==abs", _vals_close(p2.values, p.values), "predict:relative-vs-absolute-horizon-differ:" + spec[0],
                   "the same horizon given relative and absolute gives different values", relative=np.asarray(p).tolist(), absolute=np.asarray(p2).tolist())
+    # ---- each step's value belongs to that step: a horizon with gaps / a late start is a sub-selection of the full one --------
+    full_fh = list(range(1, max(fh) + 1))
+    if fh != full_fh and zoo.horizon_separable(spec):
+        f4, p4 = fit_predict(y, full_fh if fh_in in ("fit", "both") else None, full_fh if fh_in in ("predict", "both") else None, "full")
+        if p4 is not None and len(p4) == len(full_fh):
+            sub = [float(p4.iloc[h - 1]) for h in fh]
+            ctx.check("step-values", _vals_close(np.asarray(p, dtype=float), sub), "predict:value-not-that-of-its-step:" + spec[0],
+                      "the value labelled cutoff + h is not the forecast for step h (it differs from the same step in the horizon 1..max)",
+                      horizon=fh, got=np.asarray(p).tolist(), steps_of_full_horizon=sub)
+    else:
+        ctx.seen("step-values", 0)
     # ---- index shift ------------------------------------------------------------------------------------
     k = case["shift"]
     ys = pd.Series(y.values.copy(), index=(pd.RangeIndex(off + k, off + k + n) if case["idx"] == "range" else pd.Index(np.arange(off + k, off + k + n))))
